@@ -38,7 +38,8 @@ def ite_int(c, a, b):
     """If-term over two Ints (no fork)."""
     if isinstance(c, bool):
         return a if c else b
-    return mk(a.w, a.s, z3.If(c, a.z(), b.z()))
+    av, bv = a.valset(), b.valset()
+    return mk(a.w, a.s, z3.If(c, a.z(), b.z()), min(a.lo, b.lo), max(a.hi, b.hi), (av | bv) if av is not None and bv is not None else None)
 
 
 # ====================================================================== formatting / debug output (no-ops)
